@@ -412,6 +412,22 @@ class RenderContext:
             finally:
                 self.loops.pop()
 
+    @contextmanager
+    def loop_iterations(self, length: int) -> Iterator[RenderContext]:
+        """Count _length_ iterations of a loop that is not on the loop stack.
+
+        That's loops other than the `for` tag, like `tablerow` and the `for` form
+        of `render` and `include`. Loops nested inside it are multiplied by _length_
+        when checking the loop iteration limit.
+        """
+        self.raise_for_loop_limit(length)
+        carry = self.loop_iteration_carry
+        self.loop_iteration_carry = carry * max(length, 1)
+        try:
+            yield self
+        finally:
+            self.loop_iteration_carry = carry
+
     def parentloop(self, token: TokenT) -> Undefined | object:
         """Return the last ForLoop object from the loop stack."""
         try:
